@@ -163,6 +163,8 @@ type State struct {
 	now      *Term
 	clockFrozen bool
 	preempts int
+	model    *Model
+	modelLen int
 	finals   []FuncV
 	shadow   map[string]*shadowCell
 	sleepers int
@@ -272,6 +274,14 @@ func (st *State) assume(c *Term) {
 		panic(pathAbort{kind: "INFEASIBLE", msg: "assumption false"})
 	}
 	st.pc = append(st.pc, c)
+	st.extendModel(c)
+}
+
+// extendModel keeps the cached model valid when c is appended to pc.
+func (st *State) extendModel(c *Term) {
+	if st.model != nil && st.modelLen == len(st.pc)-1 && st.model.Eval(c) == 1 {
+		st.modelLen = len(st.pc)
+	}
 }
 
 // branch decides a symbolic condition.
@@ -280,20 +290,39 @@ func (st *State) branch(c *Term) bool {
 		return c.Val == 1
 	}
 	st.branches++
+	nc := st.tt.Not(c)
+	take := func(v bool) bool {
+		if v {
+			st.pc = append(st.pc, c)
+			st.extendModel(c)
+		} else {
+			st.pc = append(st.pc, nc)
+			st.extendModel(nc)
+		}
+		return v
+	}
 	if st.inPrefix() {
 		a := st.decide("br", nil2)
 		if a >= 2 { // forced: implied by pc, nothing to add
 			return a == 3
 		}
-		if a == 1 {
-			st.pc = append(st.pc, c)
-		} else {
-			st.pc = append(st.pc, st.tt.Not(c))
-		}
-		return a == 1
+		return take(a == 1)
 	}
-	rT, _ := st.w.solver.Check(st.pc, c, false, "feas")
-	rF, _ := st.w.solver.Check(st.pc, st.tt.Not(c), false, "feas")
+	var rT, rF Res
+	var mT, mF *Model
+	if st.model != nil && len(st.pc) == st.modelLen {
+		// the cached model satisfies pc: one side is feasible without a query
+		if st.model.Eval(c) == 1 {
+			rT, mT = Sat, st.model
+			rF, mF = st.w.solver.Check(st.pc, nc, true, "feas")
+		} else {
+			rF, mF = Sat, st.model
+			rT, mT = st.w.solver.Check(st.pc, c, true, "feas")
+		}
+	} else {
+		rT, mT = st.w.solver.Check(st.pc, c, true, "feas")
+		rF, mF = st.w.solver.Check(st.pc, nc, true, "feas")
+	}
 	if rT == Unknown || rF == Unknown {
 		st.noteInconclusive("feasibility query unknown at " + st.curSite() + " (both branches kept)")
 	}
@@ -302,18 +331,24 @@ func (st *State) branch(c *Term) bool {
 		panic(pathAbort{kind: "INFEASIBLE", msg: "path condition unsatisfiable"})
 	case rT == Unsat:
 		st.decide("br", []int64{2})
+		if mF != nil {
+			st.model, st.modelLen = mF, len(st.pc)
+		}
 		return false
 	case rF == Unsat:
 		st.decide("br", []int64{3})
+		if mT != nil {
+			st.model, st.modelLen = mT, len(st.pc)
+		}
 		return true
 	}
 	a := st.decide("br", []int64{1, 0})
-	if a == 1 {
-		st.pc = append(st.pc, c)
-	} else {
-		st.pc = append(st.pc, st.tt.Not(c))
+	if a == 1 && mT != nil {
+		st.model, st.modelLen = mT, len(st.pc)
+	} else if a == 0 && mF != nil {
+		st.model, st.modelLen = mF, len(st.pc)
 	}
-	return a == 1
+	return take(a == 1)
 }
 
 var nil2 = []int64{0}
